@@ -57,10 +57,11 @@ type c01spec struct {
 	vpn      bool
 	ncpu     int
 	rnd      int // 0 default streams, 1 all draws 0, 2 all draws max
+	workers  int // application scans: -w (0 = not given)
 }
 
 func (s c01spec) String() string {
-	return fmt.Sprintf("%s subnet=%q ports=%q(%s) mode=%s entries=%v exclude=%v vpn=%v ncpu=%d rnd=%d", s.cmd.name, s.subnet, s.ports, s.portsVia, s.mode, s.entries, s.exclude, s.vpn, s.ncpu, s.rnd)
+	return fmt.Sprintf("%s subnet=%q ports=%q(%s) mode=%s entries=%v exclude=%v vpn=%v ncpu=%d rnd=%d workers=%d", s.cmd.name, s.subnet, s.ports, s.portsVia, s.mode, s.entries, s.exclude, s.vpn, s.ncpu, s.rnd, s.workers)
 }
 
 // c01expect: the reference model — nested loops over the specification.
@@ -216,6 +217,9 @@ func c01build(s c01spec) *vE2ESpec {
 	if s.vpn {
 		sc.World = c01vpnWorld
 	}
+	if s.workers > 0 && s.cmd.kind == "app" {
+		args = append(args, "-w", fmt.Sprint(s.workers))
+	}
 	if s.subnet != "" {
 		args = append(args, s.subnet)
 	}
@@ -355,12 +359,21 @@ func c01specs(thorough bool, f func(s c01spec)) {
 						f(c01spec{cmd: cmd, mode: "addr-file", entries: a, ports: ports, portsVia: "flag", ncpu: next()})
 						f(c01spec{cmd: cmd, mode: "addr-stdin", entries: a, ports: ports, portsVia: "flag", ncpu: next()})
 					}
+					// the port list given by --ports-file alone, or split between -p and the file
+					f(c01spec{cmd: cmd, mode: "addr-file", entries: a, ports: "80,443", portsVia: "file", ncpu: next()})
+					f(c01spec{cmd: cmd, mode: "addr-file", entries: a, ports: "80-81,443", portsVia: "both", ncpu: next()})
 				}
 				f(c01spec{cmd: cmd, mode: "addr-file", entries: []string{"10.0.1.1", "10.0.2.2", "10.0.3.3"}, ports: "80,443", portsVia: "flag", exclude: []string{"10.0.2.0/24"}, ncpu: next()})
 			} else {
 				for _, a := range addrs {
 					f(c01spec{cmd: cmd, mode: "addr-file", entries: a, ncpu: next()})
 				}
+			}
+		}
+		// 4b. application scans: worker counts at the boundaries (the default is 100)
+		if cmd.kind == "app" {
+			for _, w := range []int{1, 2, 3, 1000} {
+				f(c01spec{cmd: cmd, subnet: "10.0.1.8/30", ports: "80-81", portsVia: "flag", mode: "subnet", ncpu: next(), workers: w})
 			}
 		}
 		// 5. VPN / raw-IP link mode
@@ -379,7 +392,7 @@ func verifC01(c *drv.Ctx) {
 	defer vE2ECleanup()
 	c.R.Rule = "end-to-end runs of the real CLI (12 commands: arp, icmp, tcp, tcp syn/fin/null/xmas/--flags, udp, socks, docker, elastic) on the virtual wire; target specifications = " +
 		"every prefix /32../26 x {aligned, unaligned, all-ones} base, 8 port-list shapes x {flag, ports-file, both}, chunk boundaries 199/200/201(/400/401) port ranges, 5 exclusion lists, " +
-		"files of 0-3 ip/port pairs or addresses (regular file and stdin) x 3 port lists, VPN link mode, NumCPU 1-3, 3 random-source variants (thorough adds /24, /20, /16); " +
+		"files of 0-3 ip/port pairs or addresses (regular file and stdin) x 3 port lists, VPN link mode, NumCPU 1-3, application scans with 1/2/3/1000 workers, 3 random-source variants (thorough adds /24, /20, /16); " +
 		"oracle: multiset of (dst address[, dst port]) decoded from the wire log = nested-loop reference minus exclusions; distinct = specification, non-trivial = expected multiset non-empty"
 	idx := 0
 	c01specs(c.Thorough(), func(s c01spec) {
